@@ -170,6 +170,15 @@ pub fn check(c: &Case) -> CheckResult {
             }
             let e = 3.0 / 255.0 + if widen { t.abs() / 255.0 } else { 0.0 } + 1e-4;
             let (lo, hi) = (t - e, t + e);
+            // two-circle: when the tolerance window on t reaches parameters whose circle has a negative
+            // radius (the pixel sits at the apex of the cone of circles), "no admissible circle" is one of
+            // the admissible outcomes, and that outcome is transparent
+            if let SrcSpec::TwoCircle { r1, r2, .. } = &c.src {
+                if (*r1 as f64) + lo * (*r2 as f64 - *r1 as f64) < 0.0 && got[i] == 0 {
+                    o.undecided += 1;
+                    continue;
+                }
+            }
             // sample the window: 65 points plus every stop position and spread seam inside it
             let mut ts: Vec<f64> = (0..=64).map(|k| lo + (hi - lo) * k as f64 / 64.0).collect();
             let kmin = lo.floor() as i64;
@@ -244,6 +253,12 @@ pub fn check(c: &Case) -> CheckResult {
                     if let SrcSpec::Sweep { .. } = &c.src {
                         continue;
                     }
+                    // the apex pixel of a two-circle gradient may legitimately be transparent (see above)
+                    if let SrcSpec::TwoCircle { r1, r2, .. } = &c.src {
+                        if (*r1 as f64) + (t - e) * (*r2 as f64 - *r1 as f64) < 0.0 {
+                            continue;
+                        }
+                    }
                     if t < -4.0 / 255.0 - e {
                         if let Some((_, col)) = pad_lo {
                             if got[i] != col {
@@ -312,7 +327,7 @@ pub fn property(ctx: &Ctx) -> Property {
         id: "C12",
         rule: "cases: linear (extent >= 1 px), radial (r >= 1), two-circle (first circle strictly inside the second) and sweep gradients built with the Source::new_* constructors; 1-5 stops at strictly increasing positions (gaps >= 0.02, ends not necessarily 0/1) with random unpremultiplied colours or probe ramps; Pad/Repeat/Reflect; global alpha; identity or any invertible CTM; 4..24 px surfaces, rendered with a full-surface Src fill. Oracle: f64 parameter t per pixel centre (through the inverse CTM) by the statement's definitions, colour = piecewise-linear interpolation of the unpremultiplied stops after the spread map, premultiplied and scaled by alpha; every channel must lie within 4/255 of the range that colour takes for t within 3/255 (+|t|/255 for two-circle and sweep) of the pixel's t; Pad pixels beyond an end all show one identical colour; two-circle pixels without admissible circle are transparent. Non-trivial: >=3 distinct colours on the surface and t spanning >= 0.25; distinct by hash of the case.",
         assumptions: vec!["sweep pixels within 1.5 px of the centre or within 0.75 px of the angle-0 ray are not judged (angle discontinuity inside the pixel)"],
-        parts: vec![part("render", 12_000, 500_000, move || strategy(&c), check)],
+        parts: vec![part("render", 60_000, 1_000_000, move || strategy(&c), check)],
         min_class_fraction: vec![("render", "src:linear", 0.15), ("render", "src:radial", 0.15), ("render", "src:twocircle", 0.15), ("render", "src:sweep", 0.15), ("render", "spread:reflect", 0.2), ("render", "t>1-seen", 0.3), ("render", "t<0-seen", 0.1)],
         panic_is_violation: false,
     }
